@@ -52,7 +52,7 @@ func inGlobalFuncBody(items []scItem) []bool {
 		switch it.K {
 		case "file":
 			stack = nil
-		case "do", "while", "if", "repeat", "fornum", "forin", "lfunc", "lefunc":
+		case "do", "while", "if", "repeat", "fornum", "forin", "lfunc", "lefunc", "cfunc":
 			stack = append(stack, cur)
 		case "gfunc":
 			stack = append(stack, cur || it.Nb == 0)
